@@ -14,6 +14,8 @@ from checks import common
 from symx.runner import Query
 
 PROPERTY = "C04"
+# out-of-range temperatures: "refused" on every path is the correct outcome and reaches no assertion
+OBLIGATION_FREE_GROUPS = ("k_temp_range",)
 LEVEL = "other"
 EXPLANATION = __doc__
 FUNCTIONS = [
